@@ -5,6 +5,8 @@ usage: python -m vp.worker <PID> search <subcheck> <tier> <shard> <nshards> <see
 """
 import json
 import os
+import signal
+import threading
 import sys
 import time
 import traceback
@@ -25,10 +27,45 @@ def _lib_frame(tb, root):
     return hit
 
 
+class NoReturn(BaseException):
+    """Raised by the CPU-time guard (not an Exception, so that no ``except Exception`` in the library swallows it)."""
+
+
+class AbortSearch(BaseException):
+    """Leaves the Hypothesis engine at once (no shrinking) after a call that did not return."""
+
+
+# CPU seconds (user time of this process, so machine load does not count) one case may use before the call is declared
+# not to return; ordinary cases take milliseconds, the slowest ones about a second.
+CASE_CPU_LIMIT = float(os.environ.get("VERIF_CASE_CPU_S", "60"))
+
+
+def _cpu_alarm(signum, frame):
+    raise NoReturn()
+
+
 def run_case(sc, case, ctx):
     """Run one case. Returns outcome string; raises Violation for property failures
     and lets harness errors propagate as HarnessError."""
     core.clear_library_caches()
+    guard = CASE_CPU_LIMIT > 0 and hasattr(signal, "setitimer") and threading.current_thread() is threading.main_thread()
+    if guard:
+        old = signal.signal(signal.SIGVTALRM, _cpu_alarm)
+        signal.setitimer(signal.ITIMER_VIRTUAL, CASE_CPU_LIMIT)
+    try:
+        return _run_case(sc, case, ctx)
+    except NoReturn:
+        fr = _lib_frame(sys.exc_info()[2], os.path.abspath(core.repo_root()))
+        where = "%s:%s" % (os.path.basename(fr.filename), fr.name) if fr is not None else "?"
+        raise Violation("no-return@" + where, "in-domain call did not return within %g s of CPU time (last library frame %s line %s); "
+                        "ordinary cases take milliseconds" % (CASE_CPU_LIMIT, where, fr.lineno if fr is not None else "?"))
+    finally:
+        if guard:
+            signal.setitimer(signal.ITIMER_VIRTUAL, 0)
+            signal.signal(signal.SIGVTALRM, old)
+
+
+def _run_case(sc, case, ctx):
     try:
         sc.check(case, ctx)
         return "ok"
@@ -114,6 +151,8 @@ def search(pid, subname, tier, shard, nshards, seed, out, known):
             stats.record(case, ctx, "violation")
             state["last"] = (case, v)
             state["history"] = list(stats.recent)
+            if v.tag.startswith("no-return@"):
+                raise AbortSearch()          # shrinking a call that never returns would cost the CPU limit per attempt
             raise
 
     if sc.enumerate_cases is not None:
@@ -125,9 +164,13 @@ def search(pid, subname, tier, shard, nshards, seed, out, known):
             state = {}
             try:
                 one(case, state)
-            except Violation as v:
+            except (Violation, AbortSearch) as v:
+                if isinstance(v, AbortSearch):
+                    v = state["last"][1]
                 if len(violations) < MAX_ROOT_CAUSES and v.tag not in [x["tag"] for x in violations]:
                     violations.append({"tag": v.tag, "msg": v.msg, "details": _js(v.details), "case": case})
+                if v.tag.startswith("no-return@"):
+                    break
             except HarnessError as e:
                 harness_error = str(e)
                 break
@@ -155,6 +198,10 @@ def search(pid, subname, tier, shard, nshards, seed, out, known):
                 violations.append({"tag": vv.tag, "msg": vv.msg, "details": _js(vv.details), "case": case})
                 ignore.add(vv.tag)
                 continue
+            except AbortSearch:
+                case, vv = state["last"]
+                violations.append({"tag": vv.tag, "msg": vv.msg, "details": _js(vv.details), "case": case})
+                break
             except HarnessError as e:
                 harness_error = str(e)
                 break
